@@ -309,7 +309,7 @@ fn wm_inductive_step() {
     kani::cover!((who as usize) < NW && s.wpc[0] == 3, "waker about to call back");
 }
 
-// @verif prop=C11,C12 tier=quick timeout=600 mem=8 unwind=6
+// @verif prop=C11,C12 tier=quick timeout=1200 mem=8 unwind=6
 // @enc (model only) base case and conclusion of the induction
 // @sym configuration; for the conclusion: any state satisfying INV
 // @bound none (state predicate)
